@@ -1001,8 +1001,10 @@ func protoProbes(cw *cq.Writer, w *World, c *pconv, lin *lineage, rng *rand.Rand
 	}
 	points = append(points, nEv)
 	maxProbes := 10
+	fsEvery := 6
 	if o.Thorough() {
 		maxProbes = 60
+		fsEvery = 3
 	}
 	rng.Shuffle(len(points), func(i, j int) { points[i], points[j] = points[j], points[i] })
 	if len(points) > maxProbes {
@@ -1061,6 +1063,25 @@ func protoProbes(cw *cq.Writer, w *World, c *pconv, lin *lineage, rng *rand.Rand
 				continue
 			}
 			c.addProbe(at, ch, res)
+			// a sample of the images is also materialised on a real file system and reopened in a child process
+			if (pi*7+vi)%fsEvery == 0 {
+				cw.Count("crash_images_on_real_fs", 1)
+				cw.OracleEval(1)
+				fsres, status := reopenOnFS(files, fmt.Sprintf("%v-%v-%d-%d", desc["run"], desc["round"], at, vi), w.O.Universe, w.O.SegVersion)
+				switch {
+				case strings.HasPrefix(status, "crash"):
+					cw.OracleFail("recovery-crashes", "reopening the crash image on the file-system directory: "+status, pdesc)
+				case status != "ok":
+					cw.Count("fs_setup_errors", 1)
+				default:
+					if fsres.WFail != res.WFail || fsres.RFail != res.RFail ||
+						(!res.WFail && (fsres.WEpoch != res.WEpoch || !sameDV(fsres.WContent, res.WContent))) ||
+						(!res.RFail && (fsres.REpoch != res.REpoch || !sameDV(fsres.RContent, res.RContent))) {
+						cw.OracleFail("fs-and-simulated-recovery-differ", fmt.Sprintf("file system: wfail=%v epoch=%d %v rfail=%v; simulated: wfail=%v epoch=%d %v rfail=%v",
+							fsres.WFail, fsres.WEpoch, sortedDV(fsres.WContent), fsres.RFail, res.WFail, res.WEpoch, sortedDV(res.WContent), res.RFail), pdesc)
+					}
+				}
+			}
 			completed := c.commitsAt[at] > 0 || len(c.diskAt[0].snp) > 0
 			fullSnp := false
 			for i, f := range d.fly {
